@@ -51,14 +51,14 @@ PROPS = {
  ),
  "C04": dict(
     level="proof",
-    claim="Proof of shape law, source-index law and element law for tile (reps of equal and greater length), repeat along an axis (scalar repeats, incl. negative axis) and roll along an axis for EVERY shift magnitude and sign, ranks 1..3, every extent and index (compile-time and run-time axes); concatenate at index level: result shape (summed extent on the axis, failure exactly when another extent differs), and for every destination index which operand and which source index is read, run-time axis incl. negative; pad (shape = source + both widths; a coordinate maps to the source exactly outside the padding, view::pad reads the source element or the fill value); tril/triu (kept side exactly col-row <= k resp. >= k, identity index, 1-d source used as every row); take along a run-time axis incl. negative (shape; source coordinate = listed entry, a negative entry counted from the end, inside the extent); diagonal for either sign of the offset (shape incl. diagonal length, both diagonal coordinates inside their extents, other coordinates in order); sliding_window (windowed axes shrink by w-1, window extents appended, source = position + offset; scalar window on a run-time axis incl. negative, and one window per axis); sibling side-consistency of paired locals in the anchor files (R-PAIR). The remaining operations of the property are not decided.",
+    claim="Proof of shape law, source-index law and element law for tile (reps of equal and greater length), repeat along an axis (scalar repeats, incl. negative axis) and roll along an axis for EVERY shift magnitude and sign, ranks 1..3, every extent and index (compile-time and run-time axes); concatenate at index level: result shape (summed extent on the axis, failure exactly when another extent differs), and for every destination index which operand and which source index is read, run-time axis incl. negative; pad (shape = source + both widths; a coordinate maps to the source exactly outside the padding, view::pad reads the source element or the fill value); tril/triu (kept side exactly col-row <= k resp. >= k, identity index, 1-d source used as every row); eye (fill exactly on the k-th diagonal); expand (axis extent s+(s-1)*spacing; multiples of spacing+1 map to coordinate/(spacing+1), everything else is a fill position; run-time axis incl. negative); take along a run-time axis incl. negative (shape; source coordinate = listed entry, a negative entry counted from the end, inside the extent); diagonal for either sign of the offset (shape incl. diagonal length, both diagonal coordinates inside their extents, other coordinates in order); sliding_window (windowed axes shrink by w-1, window extents appended, source = position + offset; scalar window on a run-time axis incl. negative, and one window per axis); sibling side-consistency of paired locals in the anchor files (R-PAIR). The remaining operations of the property are not decided.",
     note=E1_NOTE,
     technique=E1_TECH,
-    e1=[dict(tu="c04_select.cpp"), dict(tu="c03b_dynamic.cpp"), dict(tu="c04b_concat.cpp"), dict(tu="c15b_pad_matmul.cpp"), dict(tu="c02c_padview.cpp"), dict(tu="c04d_tri.cpp"), dict(tu="c04e_window.cpp"), dict(tu="c04c_take.cpp"), dict(tu="c04f_diagonal.cpp")],
+    e1=[dict(tu="c04_select.cpp"), dict(tu="c03b_dynamic.cpp"), dict(tu="c04b_concat.cpp"), dict(tu="c15b_pad_matmul.cpp"), dict(tu="c02c_padview.cpp"), dict(tu="c04d_tri.cpp"), dict(tu="c04e_window.cpp"), dict(tu="c04c_take.cpp"), dict(tu="c04f_diagonal.cpp"), dict(tu="c04g_expand.cpp")],
     e2=[dict(rule="R-PAIR"), dict(rule="R-AXISNORM")],
     rule=E1_RULE,
     explanation="src = dst mod shape (tile), src_axis = dst_axis / r (repeat), src_axis = (dst_axis - shift) mod extent (roll), written from the NumPy definitions.",
-    not_decided="compress, take over the flattened array (axis None), stack family, split, where, generators, resize (float round trip), expand, per-element repeats, repeat/roll without axis; view-level element laws of tril/triu/sliding_window (index level only)",
+    not_decided="compress, take over the flattened array (axis None), stack family, split, where, generators, resize (float round trip), expand with several axes, tri, per-element repeats, repeat/roll without axis; view-level element laws of tril/triu/sliding_window (index level only)",
     assumptions=["extents >= 1", "extents and |shift| below 2^30 for roll (int arithmetic)", "repeats >= 1"],
  ),
  "C06": dict(
